@@ -31,6 +31,7 @@ func main() {
 	seed := flag.Int64("seed", 1, "seed for -random")
 	out := flag.String("out", "", "directory for C08-known-findings.json / C09-known-findings.json (empty: do not write)")
 	verbose := flag.Bool("v", false, "print every key")
+	merge := flag.String("merge-replays", "", "directory with replays/C08 and replays/C09 of check runs: add their witnesses (harvested from seeded runs) to the findings written with -out")
 	dump := flag.String("dump", "", "print the program with this origin (e.g. random:402) and exit")
 	bodyFlag := flag.String("body", "", "only show what both oracles say about this template body (Go-quoted or raw) and its reduction")
 	flag.Parse()
@@ -155,6 +156,37 @@ func main() {
 			fmt.Printf("  !! %d keys reached only from random/mutant programs (not in the enumeration):\n", len(newFromRandom))
 			for _, k := range newFromRandom {
 				fmt.Printf("      %s   (%v) e.g. from %v\n", k, r.Found[k].ByOrigin, r.Found[k].Origins)
+			}
+		}
+		if *merge != "" {
+			files, _ := filepath.Glob(filepath.Join(*merge, "replays", prop.id, "*.json"))
+			sort.Strings(files)
+			have := map[string]bool{}
+			for _, f := range findings {
+				have[f.Key] = true
+			}
+			for _, fn := range files {
+				b, err := os.ReadFile(fn)
+				if err != nil {
+					continue
+				}
+				var rp struct {
+					Key, Summary string
+					Seed         int64
+					Tier         string
+					Case         tsrc.Case
+				}
+				if json.Unmarshal(b, &rp) != nil || rp.Key == "" || have[rp.Key] {
+					continue
+				}
+				have[rp.Key] = true
+				o := prop.oracle(rp.Case.Src)
+				ki := &tsrc.KeyInfo{Key: rp.Key, Class: o.Class, Detail: o.Detail, Src: rp.Case.Src}
+				f := family(prop.id, ki)
+				findings = append(findings, core.Finding{Property: prop.id, Key: rp.Key,
+					What:   fmt.Sprintf("[%s; harvested from %s seed %d %s] %s: %s", f, rp.Tier, rp.Seed, rp.Case.Origin, strings.TrimSpace(body(rp.Case.Src)), o.Detail),
+					Anchor: anchor(f)})
+				fmt.Printf("  harvested %s (%s)\n", rp.Key, f)
 			}
 		}
 		if *out != "" {
